@@ -24,39 +24,42 @@ CONSTANTS WinLen, RootLo, RootHi,
           WLens,       \* write lengths
           Bounds,      \* integer slice bounds (an absent bound is always tried as well)
           MinPos, MaxPos,   \* positions kept within MinPos..MaxPos (state constraint on seeks)
-          MaxViews, MaxSteps
+          MaxViews, MaxSteps,
+          KeepHistory  \* TRUE only for simulation runs whose behaviours are replayed into rig
 
 VARIABLES fmem,     \* the memory window
           views,    \* sequence of views; views[1] is the root
           freed,
           lastw,    \* ghost: for every address the byte most recently written there (file semantics)
           steps,
-          issued    \* what the last step did: [by, kind, accs, result, warn, oldpos]
+          issued,   \* what the last step did: [by, kind, accs, result, warn, oldpos]
+          hist      \* the operations so far <<kind, view, arguments>> (stays empty unless KeepHistory)
 
-vars == <<fmem, views, freed, lastw, steps, issued>>
+vars == <<fmem, views, freed, lastw, steps, issued, hist>>
 
 InitMem == [i \in 1..WinLen |-> 0]
 Nothing == [by |-> 1, kind |-> "init", accs |-> <<>>, result |-> <<>>, warn |-> FALSE, oldpos |-> 0]
 
 DInit == /\ fmem = InitMem /\ lastw = InitMem
          /\ views = <<NewView(RootLo, RootHi)>>
-         /\ freed = FALSE /\ steps = 0 /\ issued = Nothing
+         /\ freed = FALSE /\ steps = 0 /\ issued = Nothing /\ hist = <<>>
 
 Alive(v) == ~views[v].closed /\ ~freed
 Tick == steps < MaxSteps /\ steps' = steps + 1
 SetPos(v, p) == [views EXCEPT ![v].pos = p]
-Did(v, kd, ac, rs, wn) == issued' = [by |-> v, kind |-> kd, accs |-> ac, result |-> rs, warn |-> wn,
-                                     oldpos |-> views[v].pos]
+Did(v, kd, ar, ac, rs, wn) ==
+    /\ issued' = [by |-> v, kind |-> kd, accs |-> ac, result |-> rs, warn |-> wn, oldpos |-> views[v].pos]
+    /\ hist' = IF KeepHistory THEN Append(hist, <<kd, v, ar>>) ELSE hist
 
 DSeek(v, off, wh) ==
     LET t == SeekTarget(views[v], off, wh) IN
     /\ Tick /\ Alive(v) /\ t \in MinPos..MaxPos
-    /\ views' = SetPos(v, t) /\ Did(v, "seek", <<>>, <<>>, FALSE)
+    /\ views' = SetPos(v, t) /\ Did(v, "seek", <<off, wh>>, <<>>, <<off, wh>>, FALSE)
     /\ UNCHANGED <<fmem, freed, lastw>>
 \* a target before the start may be refused
 DSeekRefused(v, off, wh) ==
     /\ Tick /\ Alive(v) /\ SeekTarget(views[v], off, wh) < 0
-    /\ Did(v, "seekrefused", <<>>, <<>>, FALSE)
+    /\ Did(v, "seekrefused", <<off, wh>>, <<>>, <<>>, FALSE)
     /\ UNCHANGED <<fmem, views, freed, lastw>>
 DRead(v, n) ==
     LET vw == views[v]
@@ -65,7 +68,7 @@ DRead(v, n) ==
         data == IF k > 0 THEN FileBytes(fmem, a, k) ELSE <<>>
     IN /\ Tick /\ Alive(v)
        /\ views' = SetPos(v, vw.pos + k)
-       /\ Did(v, "read", IF k > 0 THEN << <<"r", a, k, data, 0, 0>> >> ELSE <<>>, data, ReadTruncated(vw, n))
+       /\ Did(v, "read", <<n>>, IF k > 0 THEN << <<"r", a, k, data, 0, 0>> >> ELSE <<>>, data, ReadTruncated(vw, n))
        /\ UNCHANGED <<fmem, freed, lastw>>
 DWrite(v, m) ==
     LET vw == views[v]
@@ -79,27 +82,27 @@ DWrite(v, m) ==
        /\ lastw' = [j \in 1..WinLen |-> IF \E i \in 1..k : j = vw.lo + vw.pos + i THEN data[j - vw.lo - vw.pos]
                                         ELSE lastw[j]]
        /\ views' = SetPos(v, vw.pos + k)
-       /\ Did(v, "write", ac, <<k>>, WriteTruncated(vw, m))
+       /\ Did(v, "write", <<m>>, ac, <<k>>, WriteTruncated(vw, m))
        /\ UNCHANGED freed
 \* slicing is an observer: it works on closed views and on freed allocations too
 DSlice(v, a, b) ==
     LET rg == SliceRange(views[v], a, b) IN
     /\ Tick /\ Len(views) < MaxViews
     /\ views' = Append(views, NewView(rg[1], rg[2]))
-    /\ Did(v, "slice", <<>>, <<a, b>>, FALSE)
+    /\ Did(v, "slice", <<a, b>>, <<>>, <<a, b>>, FALSE)
     /\ UNCHANGED <<fmem, freed, lastw>>
 DClose(v) ==
     /\ Tick /\ Alive(v)
-    /\ views' = [views EXCEPT ![v].closed = TRUE] /\ Did(v, "close", <<>>, <<>>, FALSE)
+    /\ views' = [views EXCEPT ![v].closed = TRUE] /\ Did(v, "close", <<>>, <<>>, <<>>, FALSE)
     /\ UNCHANGED <<fmem, freed, lastw>>
 DFree ==
     /\ Tick /\ ~freed /\ freed' = TRUE
-    /\ Did(1, "free", << <<"f", views[1].lo, 0, <<>>, 0, 0>> >>, <<>>, FALSE)
+    /\ Did(1, "free", <<>>, << <<"f", views[1].lo, 0, <<>>, 0, 0>> >>, <<>>, FALSE)
     /\ UNCHANGED <<fmem, views, lastw>>
 \* seek / tell / read / write / flush / address on a closed view or a freed allocation
 DFail(v) ==
     /\ Tick /\ ~Alive(v)
-    /\ Did(v, "fail", <<>>, <<>>, FALSE)
+    /\ Did(v, "fail", <<>>, <<>>, <<>>, FALSE)
     /\ UNCHANGED <<fmem, views, freed, lastw>>
 
 OptBounds == {<<>>} \cup { <<i>> : i \in Bounds }
@@ -144,6 +147,13 @@ TruncationStopsAtEnd == issued.warn =>
 \* without a warning a read/write at a position >= 0 transferred everything that was asked for: checked
 \* through the count the step reports
 NeverPastEnd == issued.kind \in {"read", "write"} /\ Transferred > 0 => (0 <= issued.oldpos /\ By.pos <= VLen(By))
+\* what a seek means, said without the rule: from the start the position is the offset; from the current
+\* position the view moved by the offset; from the end the distance to the end is minus the offset
+SeekMeaning == issued.kind = "seek" =>
+                  LET off == issued.result[1]  wh == issued.result[2] IN
+                  /\ wh = 0 => By.pos = off
+                  /\ wh = 1 => By.pos - issued.oldpos = off
+                  /\ wh = 2 => VLen(By) - By.pos = -off
 \* a slice covers exactly the addresses Python's slicing names.  Clip-free definition: index i of a
 \* sequence of length n is selected by [a:b] iff it is not before a and before b, where a negative
 \* bound counts from the end.
@@ -164,11 +174,14 @@ OnceClosedAlwaysClosed == [][/\ \A v \in 1..Len(views) : views[v].closed => view
 \* the free command names the allocation
 FreeNamesAllocation == issued.kind = "free" => issued.accs = << <<"f", RootLo, 0, <<>>, 0, 0>> >>
 
+\* simulation runs print each complete behaviour's operations for the replay job
+Emit == (KeepHistory /\ steps = MaxSteps) => PrintT("INFO|" \o ToString(hist))
+
 \* constant values for the configurations (TLC's cfg syntax has no negative numbers)
 QOffsets == {-2, 0, 1, 4}
 QCounts == {-1, 0, 2, 5}
 QWLens == {0, 2, 5}
-QBounds == {-4, -1, 1, 2, 5}
+QBounds == {-4, -1, 2, 5}
 TOffsets == {-3, -1, 0, 1, 2, 4, 6}
 TCounts == {-1, 0, 1, 3, 6}
 TWLens == {0, 1, 3, 6}
